@@ -12,8 +12,10 @@ spelled out by the property: an unexpired value is never lost to `DeleteExpired`
 reappears (the abstract state only moves by spec steps).
 **Partial**: M5 treats the underlying map as atomic (justified by C03/C04 and the unmechanised substitutivity of
 linearizable objects); `Set` is linearized at its `Store` with the instant computed from an earlier clock
-reading (`SetStoreSpec`), and `GetWithTTL` on the hit path reports the TTL against a later clock reading; that
-the log of linearization points yields a Herlihy–Wing linearization is the standard argument, not mechanised.
+reading (`SetStoreSpec`), and `GetWithTTL` of an entry with an expiration instant reports value and flag of its
+hindsight / linearization point but the remaining lifetime against a *second*, later clock reading of the same call
+(`C02_get_ttl`, `C02_get_ttl_end_to_end`); that the log of linearization points yields a Herlihy–Wing linearization
+is the standard argument, not mechanised.
 -/
 namespace Props.C02
 open Spec Model Model.ConcCache Proofs.ConcCacheLin Proofs.CacheRefine
@@ -26,11 +28,19 @@ theorem C02_sim_invariant (dflt : Int) (cb : Option Nat) (now : Int) (h0 : 0 ≤
     (hr : Reach dflt cb now s) : Sim (view s.g) s.g.abs :=
   gi_reach dflt cb now s hr h0
 
-/-- **every linearization point returns the TTL semantics' answer and performs its effect**, atomically -/
+/-- **every linearization point returns the TTL semantics' answer and performs its effect**, atomically.  The one
+linearization point that does not assign the call's result is the double-checked `Compute` of a `GetWithTTL k` that
+finds the abstract binding `i` of `k` with an expiration instant: the TTL semantics' answer at that instant is
+`valTTL i.v (i.e - now) true`; the call keeps `i` and moves to `getTTLClock`, where it reports the same value and flag
+and the lifetime `i.e - now'` against the clock `now' ≥ now` it reads there (`C02_get_ttl`). -/
 theorem C02_linearization_points (dflt : Int) (cb : Option Nat) (now : Int) (h0 : 0 ≤ now) (s s' : St K V)
     (t : Tid) (c : Choice K V) (δ : Nat) (op : COp K V) (hr : Reach dflt cb now s)
     (hs : step s (some t) c δ = some s') (hlp : lpPc (s.l t).pc = true) (ho : (s.l t).op = some op) :
-    ∃ res, (s'.l t).result = some res ∧ logical res = (TTL.step s.g.abs (toSpec op)).2.1 ∧
+    (((s'.l t).pc ≠ .getTTLClock ∧
+        ∃ res, (s'.l t).result = some res ∧ logical res = (TTL.step s.g.abs (toSpec op)).2.1) ∨
+     (∃ k i, (s.l t).pc = .getCompute ∧ op = .getWithTTL k ∧ s.g.abs.live.get k = some i ∧ 0 < i.e ∧
+        (TTL.step s.g.abs (toSpec op)).2.1 = .valTTL i.v (i.e - s.g.now) true ∧
+        (s'.l t).pc = .getTTLClock ∧ (s'.l t).loaded = some i)) ∧
       ((s.l t).pc ≠ .setStore → s'.g.abs = (TTL.step s.g.abs (toSpec op)).1) ∧
       ((s.l t).pc = .setStore → SetStoreSpec s.g (s.l t) op s'.g) := by
   obtain ⟨hg, hl, hst, _, _⟩ := reach_tstep dflt cb now h0 s s' t c δ hr hs
@@ -50,21 +60,60 @@ theorem C02_cleanup_never_removes_live (dflt : Int) (cb : Option Nat) (now : Int
   obtain ⟨_, hl, hst, _, _⟩ := reach_tstep dflt cb now h0 s s' t c δ hr hs
   exact never_removes_live t s.g (s.l t) c s'.g (s'.l t) hl hpc hst
 
-/-- **hindsight for the Get family**: a hit returns the abstract binding of the key at the instant of its lock-free
-`Load` (an instant inside the call); the TTL is reported against the clock read afterwards -/
+/-- **hindsight for the Get family**: a call that passes the clock check with its loaded item `i` found the
+abstract binding of the key at the instant of its lock-free `Load` (an instant inside the call).  It returns at once
+with `hitResult op i now` — except `GetWithTTL` of an entry with an expiration instant (`0 < i.e`), which keeps `i` and
+goes on to read the clock a second time (`getTTLClock`, `C02_get_ttl`) -/
 theorem C02_get_hindsight (dflt : Int) (cb : Option Nat) (now : Int) (h0 : 0 ≤ now) (s s' : St K V)
     (t : Tid) (c : Choice K V) (δ : Nat) (hr : Reach dflt cb now s) (hs : step s (some t) c δ = some s')
     (hpc : (s.l t).pc = .getChkClock) :
     s'.g = s.g ∧ ∃ i op, (s.l t).loaded = some i ∧ (s.l t).op = some op ∧ (s.l t).nowAtLoad ≤ s.g.now ∧
-      ((TTL.expired i.e s.g.now = false ∧ (s'.l t).pc = .ret ∧ (s'.l t).result = some (hitResult op i s.g.now) ∧
-          (s.l t).absAtLoad = some i) ∨
+      ((TTL.expired i.e s.g.now = false ∧ (s.l t).absAtLoad = some i ∧
+          (((¬ ∃ k, op = .getWithTTL k ∧ 0 < i.e) ∧ (s'.l t).pc = .ret ∧
+              (s'.l t).result = some (hitResult op i s.g.now)) ∨
+           (∃ k, op = .getWithTTL k ∧ 0 < i.e ∧ (s'.l t).pc = .getTTLClock ∧ (s'.l t).loaded = some i))) ∨
        (TTL.expired i.e s.g.now = true ∧ (s'.l t).pc = .getCompute)) := by
   obtain ⟨_, hl, hst, _, _⟩ := reach_tstep dflt cb now h0 s s' t c δ hr hs
   obtain ⟨h1, i, op, h2, h3, h4, _, h6⟩ := get_hindsight t s.g (s.l t) c s'.g (s'.l t) hl hpc hst
   refine ⟨h1, i, op, h2, h3, h4, ?_⟩
-  rcases h6 with ⟨a, b, c', d⟩ | ⟨a, b, _⟩
-  · exact Or.inl ⟨a, b, c', d⟩
+  rcases h6 with ⟨a, b, c'⟩ | ⟨a, b, _⟩
+  · refine Or.inl ⟨a, b, ?_⟩
+    rcases c' with c' | ⟨k, x1, x2, x3, x4, _⟩
+    · exact Or.inl c'
+    · exact Or.inr ⟨k, x1, x2, x3, x4⟩
   · exact Or.inr ⟨a, b⟩
+
+/-- **`GetWithTTL`'s second clock read**: in every reachable state, a thread at `getTTLClock` is inside a
+`GetWithTTL k`, holds the item `i` its call found (`loaded`; `0 < i.e`; unexpired at the clock value `t0` the call read
+when it found it, `nowAtLoad ≤ t0 ≤ now`); its step changes nothing shared and returns `i`'s value, `true`, and the
+lifetime `i.e - now` against the clock of *this* step -/
+theorem C02_get_ttl (dflt : Int) (cb : Option Nat) (now : Int) (h0 : 0 ≤ now) (s s' : St K V)
+    (t : Tid) (c : Choice K V) (δ : Nat) (hr : Reach dflt cb now s) (hs : step s (some t) c δ = some s')
+    (hpc : (s.l t).pc = .getTTLClock) :
+    s'.g = s.g ∧ ∃ i k t0, (s.l t).loaded = some i ∧ (s.l t).op = some (.getWithTTL k) ∧ 0 < i.e ∧
+      (s.l t).nowAtLoad ≤ t0 ∧ t0 ≤ s.g.now ∧ TTL.expired i.e t0 = false ∧
+      (s'.l t).pc = .ret ∧ (s'.l t).result = some (.valTTL i.v (i.e - s.g.now) true) := by
+  obtain ⟨_, hl, hst, _, _⟩ := reach_tstep dflt cb now h0 s s' t c δ hr hs
+  obtain ⟨h1, i, k, t0, a1, a2, a3, a4, a5, a6, a7, a8, _⟩ := get_ttl_clock t s.g (s.l t) c s'.g (s'.l t) hl hpc hst
+  exact ⟨h1, i, k, t0, a1, a2, a3, a4, a5, a6, a7, a8⟩
+
+/-- **`GetWithTTL` end to end** (any run): thread `t` steps into `getTTLClock` from the reachable state `s`; then
+anything happens except steps of `t` (`sched`); then `t` steps.  The call is a `GetWithTTL k` and returns
+`valTTL i.v (i.e - now') true`, where `i` is the abstract binding of `k` at the call's hindsight point (its `Load`,
+hit path) resp. at its linearization point (the double-checked `Compute`, where the TTL semantics answers
+`valTTL i.v (i.e - s.g.now) true`), and `now' ≥ s.g.now` is the clock at the last step -/
+theorem C02_get_ttl_end_to_end (dflt : Int) (cb : Option Nat) (now : Int) (h0 : 0 ≤ now) (s s1 s2 s3 : St K V)
+    (t : Tid) (c c' : Choice K V) (δ δ' : Nat) (sched : List (Option Tid × Choice K V × Nat))
+    (hr : Reach dflt cb now s) (h1 : step s (some t) c δ = some s1) (hpc : (s1.l t).pc = .getTTLClock)
+    (hq : ∀ x ∈ sched, x.1 ≠ some t) (h2 : run s1 sched = some s2) (h3 : step s2 (some t) c' δ' = some s3) :
+    ∃ k i, (s.l t).op = some (.getWithTTL k) ∧ 0 < i.e ∧ TTL.expired i.e s.g.now = false ∧
+      (((s.l t).pc = .getChkClock ∧ (s.l t).loaded = some i ∧ (s.l t).absAtLoad = some i ∧
+          (s.l t).nowAtLoad ≤ s.g.now ∧ s1.g = s.g) ∨
+       ((s.l t).pc = .getCompute ∧ s.g.abs.live.get k = some i ∧ s1.g.abs = s.g.abs ∧
+          (TTL.step s.g.abs (.getWithTTL k)).2.1 = .valTTL i.v (i.e - s.g.now) true)) ∧
+      s.g.now ≤ s2.g.now ∧ s3.g = s2.g ∧ (s3.l t).pc = .ret ∧
+      (s3.l t).result = some (.valTTL i.v (i.e - s2.g.now) true) :=
+  getWithTTL_second_clock dflt cb now h0 s s1 s2 s3 t c c' δ δ' sched hr h1 hpc hq h2 h3
 
 /-- a miss of the lock-free `Load` is a miss of the abstract map at that instant -/
 theorem C02_get_miss (dflt : Int) (cb : Option Nat) (now : Int) (h0 : 0 ≤ now) (s s' : St K V)
@@ -91,9 +140,26 @@ example : ∃ s, run exInit
     [ (some 0, { op := some (.set "k" 1 5) }, 0), (some 0, {}, 0), (some 0, {}, 0), (some 0, {}, 0),   -- Set k 1 (ttl 5)
       (none, {}, 6),                                                                                   -- clock passes e
       (some 1, { op := some .deleteExpired }, 0), (some 1, {}, 0), (some 1, {}, 0),
-      (some 1, { seen := some ⟨1, 5⟩ }, 0),                                                            -- T1 sees k expired
+      (some 1, { key := some "k", seen := some ⟨1, 5⟩ }, 0),                                           -- T1 sees k expired
       (some 2, { op := some (.set "k" 2 100) }, 0), (some 2, {}, 0), (some 2, {}, 0), (some 2, {}, 0), -- T2 stores fresh
       (some 1, {}, 0), (some 1, {}, 0), (some 1, {}, 0) ] = some s ∧
     s.g.items.get "k" = some ⟨2, 106⟩ ∧ s.g.abs.live.get "k" = some ⟨2, 106⟩ ∧ (s.l 1).pc = .ret := ⟨_, rfl, by decide, by decide, by decide⟩
+
+/-! ### Non-vacuity: `GetWithTTL` reads the clock twice — the entry (`e = 5`) is found live at clock 2, the lifetime is
+reported against clock 4 (`5 - 4 = 1`); with the second reading past the expiration instant the reported lifetime is
+negative (as `time.Until` in the code) -/
+example : ∃ s, run exInit
+    [ (some 0, { op := some (.set "k" 1 5) }, 0), (some 0, {}, 0), (some 0, {}, 0), (some 0, {}, 0),   -- Set k 1 (ttl 5)
+      (some 1, { op := some (.getWithTTL "k") }, 0), (some 1, {}, 0),                                  -- Load: hit
+      (none, {}, 2), (some 1, {}, 0),                                                                  -- clock check at 2: live
+      (none, {}, 2), (some 1, {}, 0) ] = some s ∧                                                      -- second clock read at 4
+    (s.l 1).pc = .ret ∧ (s.l 1).result = some (.valTTL 1 1 true) := ⟨_, rfl, by decide, by decide⟩
+
+example : ∃ s, run exInit
+    [ (some 0, { op := some (.set "k" 1 5) }, 0), (some 0, {}, 0), (some 0, {}, 0), (some 0, {}, 0),
+      (some 1, { op := some (.getWithTTL "k") }, 0), (some 1, {}, 0),
+      (none, {}, 2), (some 1, {}, 0),
+      (none, {}, 10), (some 1, {}, 0) ] = some s ∧
+    (s.l 1).pc = .ret ∧ (s.l 1).result = some (.valTTL 1 (-7) true) := ⟨_, rfl, by decide, by decide⟩
 
 end Props.C02
